@@ -21,7 +21,7 @@ RULE = ("states are drawings = sets of placed items on a lattice (canonical key:
         "(A) structure: every filling of the 4 edges of the 2x2 lattice with {nothing, wire, resistor in either direction, DC voltage "
         "source in either direction with either reversal flag} x ground positions (none, first and last touched point; thorough: every touched point), each built in canonical "
         "and reversed insertion order (and every adjacent swap for the ground-at-origin drawings), plus every 3x2-lattice drawing "
-        "with <= 3 edge items incl. a wire spanning two cells and one node label; (B) kinds: every symbol kind of the statement x "
+        "with <= 3 edge items incl. a wire spanning two cells and one node label; (W) wire meshes: three fixed symbols, ground and label with every sequence (every insertion order) of up to 4 (thorough 5) wires out of 8 candidates that contain closed wire loops, a doubled wire and long wires drawn over two short ones; (B) kinds: every symbol kind of the statement x "
         "both placement directions x all four rotations x reversal flag x degree/sine options in two one-loop contexts; (C) "
         "metamorphic generators on every (A) drawing with the ground at the origin: rotations by 90/180/270 degrees, two "
         "translations (one on a rounding boundary), two drawing units (thorough: three each and a combined one), every wire split in two, chained "
@@ -75,6 +75,10 @@ def shards(tier):
     for i in range(e3):
         for j in range(i, e3):
             out.append(("A: 3x2 lattice <=3 items", ("A3", i, j, tier)))
+    for wi in range(len(WIRES)):
+        for wj in range(len(WIRES)):
+            if wi != wj:
+                out.append(("W: wire meshes in every insertion order", ("W", wi, wj, tier)))
     for k in range(len(kind_cases())):
         out.append(("B: symbol kinds", ("B", k)))
     for a in range(n):
@@ -99,6 +103,8 @@ def run_shard(desc):
                 for g in gpos:
                     prog = base + ([{"op": "ground", "p": list(g)}] if g is not None else [])
                     explore_drawing(prog, res, full=(g == (0, 0)) or (g is not None and (0, 0) not in touched and g == touched[0]), tier=tier)
+    elif desc[0] == "W":
+        run_wires(desc[1], desc[2], desc[3], res)
     elif desc[0] == "A3":
         run_a3(desc[1], desc[2], desc[3], res)
     elif desc[0] == "B":
@@ -392,6 +398,36 @@ def run_a3(i, j, tier, res):
                     explore_drawing(prog2, res, full=False, tier=tier)
 
 
+# ------------------------------------------------------------------ (W) wire meshes: cycles, doubled and overlapping wires, every order
+WIRES = [((0, 1), (1, 1)), ((1, 1), (2, 1)), ((0, 1), (2, 1)), ((0, 0), (1, 0)), ((1, 0), (2, 0)), ((0, 0), (2, 0)), ((1, 0), (1, 1)), ((1, 1), (0, 1))]
+
+
+def run_wires(wi, wj, tier, res):
+    """two fixed symbols, a ground and a label; every sequence of up to 4 (thorough 5) distinct candidate wires that starts
+    with wires wi, wj - the candidates contain closed wire loops, a doubled wire and long wires drawn over two short ones"""
+    syms = [{"op": "sym", "kind": "dc_v", "name": "V1", "p": [0, 0], "q": [0, 1], "params": {"V": 10.0}},
+            {"op": "sym", "kind": "resistor", "name": "R1", "p": [2, 1], "q": [2, 0], "params": {"R": 30.0}},
+            {"op": "sym", "kind": "resistor", "name": "R2", "p": [1, 1], "q": [1, 0], "params": {"R": 60.0}}]
+    tail = [{"op": "ground", "p": [0, 0]}, {"op": "label", "name": "A", "p": [2, 1]}]
+    rest = [k for k in range(len(WIRES)) if k not in (wi, wj)]
+    kmax = 5 if tier == "thorough" else 4
+    for extra in range(0, kmax - 1):
+        for seq in itertools.permutations(rest, extra):
+            order = (wi, wj) + seq
+            wires = [{"op": "wire", "p": list(WIRES[k][0]), "q": list(WIRES[k][1])} for k in order]
+            prog = syms + wires + tail
+            res["evals"] += 1
+            if rdw.node_names(prog) is None:
+                bump(res["skipped"], "two_names_on_one_node")
+                continue
+            res["nontrivial"] += 1
+            res["state_keys"].add(hash(key_of(prog)))
+            bump(res["hits"], "wire_mesh_order")
+            judge_build(prog, {}, "dir", res)
+            if extra == kmax - 2:
+                judge_build(wires + syms + tail, {}, "dir", res)
+
+
 # ------------------------------------------------------------------ (B) every symbol kind
 def kind_cases():
     out = []
@@ -478,7 +514,7 @@ def hash_slice(a, tier):
 
 def vacuity(agg, tier):
     out = []
-    for k in ("component_set", "node_classes_bijection", "labels_and_ground", "source_polarity", "same_solution", "insertion_order", "rotate", "translate", "rescale", "split_wire", "placement_style", "hash_seed"):
+    for k in ("component_set", "node_classes_bijection", "labels_and_ground", "source_polarity", "same_solution", "insertion_order", "rotate", "translate", "rescale", "split_wire", "placement_style", "hash_seed", "wire_mesh_order"):
         if agg["hits"].get(k, 0) == 0:
             out.append("sub-check %s never fired" % k)
     for kind, _ in kind_cases():
